@@ -166,6 +166,76 @@ class _:
             raise Fail(f"value:{case['op']}:{case['rhs']}@{pos}", f"expected {exp.tolist()} got {got.tolist()} for {case}")
 
 
+@check("c03.large", ["C03", "C06", "C17"], [
+    "pyttb.sptensor.sptensor.__add__", "pyttb.sptensor.sptensor.__sub__", "pyttb.sptensor.sptensor.__mul__",
+    "pyttb.sptensor.sptensor.logical_and", "pyttb.sptensor.sptensor.logical_or", "pyttb.sptensor.sptensor.logical_xor",
+    "pyttb.sptensor.sptensor.__eq__", "pyttb.sptensor.sptensor.__ne__", "pyttb.sptensor.sptensor._compare",
+    "pyttb.pyttb_utils.tt_ismember_rows", "pyttb.pyttb_utils.tt_intersect_rows", "pyttb.pyttb_utils.tt_setdiff_rows"])
+class _:
+    """Every operator on one pair of large sparse operands (20 x 20 x 20, about 1500 nonzeros each: the row helpers
+    compare thousands of rows with thousands of rows), against dense semantics; plus the row helpers directly on
+    matrices of that size."""
+
+    def cases(self, tier, rng):
+        for op in BIN_OPS:
+            if op == "div":
+                continue
+            yield dict(op=op, seed=rng.randrange(10**6), shape=[20, 20, 20] if tier == "quick" else [24, 20, 22])
+        yield dict(op="row-helpers", seed=rng.randrange(10**6), shape=[20, 20, 20])
+
+    def classify(self, case):
+        return case["op"]
+
+    def run(self, case):
+        ttb = import_pyttb()
+        rs = np.random.RandomState(case["seed"])
+        shp = tuple(case["shape"])
+        ncell = int(np.prod(shp))
+
+        def draw(n):
+            lin = rs.choice(ncell, size=n, replace=False)
+            subs = np.array(np.unravel_index(lin, shp)).T
+            vals = rs.choice([-2.0, -1.0, 1.0, 2.0, 3.0], size=(n, 1))
+            return subs, vals
+        sa, va = draw(1500)
+        sb, vb = draw(1400)
+        # share a block of positions (some with equal values) so every branch of the operators sees data
+        sb[:400] = sa[:400]
+        vb[:200] = va[:200]
+        _, first = np.unique(sb, axis=0, return_index=True)
+        sb, vb = sb[np.sort(first)], vb[np.sort(first)]
+        if case["op"] == "row-helpers":
+            from pyttb.pyttb_utils import tt_intersect_rows, tt_ismember_rows, tt_setdiff_rows
+            allr = np.array(np.unravel_index(np.arange(ncell), shp)).T
+            key = lambda M: (M @ np.array([1, shp[0], shp[0] * shp[1]])).astype(int)
+            pos = {k: i for i, k in enumerate(key(sa))}
+            matched, loc = tt_ismember_rows(allr, sa)
+            exp_loc = np.array([pos.get(k, -1) for k in key(allr)])
+            if not np.array_equal(loc, exp_loc) or not np.array_equal(matched, exp_loc >= 0):
+                raise Fail("ismember:large", f"{int((loc != exp_loc).sum())} of {ncell} locations differ")
+            d = tt_setdiff_rows(allr, sa)
+            if not np.array_equal(d, np.flatnonzero(exp_loc < 0)):
+                raise Fail("setdiff:large", f"{len(d)} rows vs {int((exp_loc < 0).sum())}")
+            common = tt_intersect_rows(sa, sb)
+            inb = set(key(sb).tolist())
+            posa = {k: i for i, k in enumerate(key(sa))}
+            exp_c = [posa[k] for k in key(sb) if k in posa]
+            if list(common) != exp_c:
+                raise Fail("intersect:large", f"{len(common)} vs {len(exp_c)}")
+            return
+        A = ttb.sptensor(sa.copy(), va.copy(), shp)
+        B = ttb.sptensor(sb.copy(), vb.copy(), shp)
+        da, db = np.zeros(shp), np.zeros(shp)
+        da[tuple(sa.T)] = va.ravel()
+        db[tuple(sb.T)] = vb.ravel()
+        f, g = BIN_OPS[case["op"]]
+        with np.errstate(all="ignore"):
+            exp = np.asarray(g(da, db), dtype=float)
+        got = expand(ttb, f(A, B), case["op"] + "(large)")
+        if not same(got, exp):
+            raise Fail(f"value:{case['op']}:large", f"{int((got != exp).sum())} of {ncell} entries differ (seed {case['seed']})")
+
+
 UNARY = {
     "neg": (lambda a: -a, lambda x: -x),
     "pos": (lambda a: +a, lambda x: +x),
